@@ -176,11 +176,8 @@ theorem decode_total (codec : List Nat → Option (List Char)) :
 
 /-! ## `encoding_errors='htmlentityreplace'` -/
 
-/-- the reference the handler computes for an unencodable character (`XMLEntityEscaper.escape` on it) -/
-abbrev charRef (c : Char) : List Char := xeeEscapeChar c
-
 /-- every reference is `&name;` / `&#xH;` and decodes back to the character it stands for -/
-theorem htmlentityreplace_refs_decode (c : Char) (h : 128 ≤ c.toNat) : Spec.decodeRef (charRef c) = some c :=
+theorem htmlentityreplace_refs_decode (c : Char) (h : 128 ≤ c.toNat) : Spec.decodeRef (Spec.charRef c) = some c :=
   decodeRef_xee c (escapable_of_nonascii c h)
 
 /-- encoding succeeds for every string, every codec that can encode ASCII, both ways codecs report errors;
@@ -191,29 +188,21 @@ theorem htmlentityreplace_total (enc : Char → Bool) (hascii : ∀ c : Char, c.
   obtain ⟨o, h1, h2, _⟩ := handlerGo_wrapped enc hascii grouped s [] (by simp)
   exact ⟨o, h1, h2⟩
 
-/-- FULL statement of the property for the handler: each unencodable character is replaced by its reference,
-everything else is unchanged.
-
-OPEN on the unchanged tree (finding F3): `htmlentityreplace_errors` returns `str(bytes)`, so the references
-arrive wrapped in `b'…'`; see `htmlentityreplace_counterexample`.  What *is* proved: totality and decodability
-of the references (above), the statement itself whenever nothing has to be replaced (`…_partial`), and the exact
-shape of the output including the wrapper (`…_modulo_wrapper`). -/
-def HandlerFaithful (enc : Char → Bool) (grouped : Bool) (s : List Char) : Prop :=
-  handlerEncode enc grouped s = some (s.flatMap fun c => if enc c then [c] else charRef c)
-
-/- OPEN (finding F3) - the full-strength theorem, false of the unchanged tree and of this model of it:
+/- OPEN (finding F3) - the full-strength theorem (`Spec.HandlerFaithful`: each unencodable character is replaced by
+its reference, everything else is unchanged), false of the unchanged tree and of this model of it, because
+`htmlentityreplace_errors` returns `str(bytes)` and the references arrive wrapped in `b'…'`:
 
 theorem htmlentityreplace_total_and_faithful (enc : Char → Bool)
     (hascii : ∀ c : Char, c.toNat < 128 → enc c = true) (grouped : Bool) (s : List Char) :
-    HandlerFaithful enc grouped s ∧ ∀ c, 128 ≤ c.toNat → Spec.decodeRef (charRef c) = some c
+    Spec.HandlerFaithful enc grouped s ∧ ∀ c, 128 ≤ c.toNat → Spec.decodeRef (Spec.charRef c) = some c
 
 With the repair `return (text.decode("ascii"), ex.end)` the model's `handlerReplace` becomes `xeeEscape`, the
 wrapper in `Spec.Wrapped.run` disappears and `htmlentityreplace_faithful_modulo_wrapper` is this statement. -/
 
 /-- guard: every character of the text is encodable (the handler is never called) -/
 theorem htmlentityreplace_total_and_faithful_partial (enc : Char → Bool) (grouped : Bool) (s : List Char)
-    (hguard : ∀ c ∈ s, enc c = true) : HandlerFaithful enc grouped s := by
-  unfold HandlerFaithful handlerEncode
+    (hguard : ∀ c ∈ s, enc c = true) : Spec.HandlerFaithful enc grouped s := by
+  unfold Spec.HandlerFaithful handlerEncode
   rw [handlerGo_all_encodable enc grouped s hguard]
   congr 1
   induction s with
@@ -226,16 +215,16 @@ theorem htmlentityreplace_total_and_faithful_partial (enc : Char → Bool) (grou
 concatenation of their (decodable) references – inside a spurious `b'` … `'` -/
 theorem htmlentityreplace_faithful_modulo_wrapper (enc : Char → Bool)
     (hascii : ∀ c : Char, c.toNat < 128 → enc c = true) (grouped : Bool) (s : List Char) :
-    ∃ o, handlerEncode enc grouped s = some o ∧ Spec.Wrapped enc charRef s o := by
+    ∃ o, handlerEncode enc grouped s = some o ∧ Spec.Wrapped enc Spec.charRef s o := by
   obtain ⟨o, h1, _, h3⟩ := handlerGo_wrapped enc hascii grouped s [] (by simp)
   exact ⟨o, h1, by simpa using h3⟩
 
 /-- the model (like the code) violates the full statement: `'€'.encode('ascii', 'htmlentityreplace')` is
 `b"b'&euro;'"`, not `b"&euro;"` -/
 theorem htmlentityreplace_counterexample :
-    ¬ HandlerFaithful (fun c => c.toNat < 128) true ['€'] ∧
+    ¬ Spec.HandlerFaithful (fun c => c.toNat < 128) true ['€'] ∧
     handlerEncode (fun c => c.toNat < 128) true ['€'] = some "b'&euro;'".toList := by
-  unfold HandlerFaithful
+  unfold Spec.HandlerFaithful
   decide +kernel
 
 /-! ## Non-vacuity: the hypotheses above are satisfiable by non-trivial instances -/
@@ -253,7 +242,7 @@ example : ∀ c : Char, c.toNat < 128 → (fun c : Char => decide (c.toNat < 256
 example : ∀ c ∈ ['<', 'é', '&', 'a'], (fun c : Char => decide (c.toNat < 256)) c = true := by decide
 /-- `128 ≤ c.toNat` in `htmlentityreplace_refs_decode`: a character with and one without a named entity -/
 example : 128 ≤ ('€' : Char).toNat ∧ 128 ≤ ('世' : Char).toNat ∧
-    charRef '€' = "&euro;".toList ∧ charRef '世' = "&#x4E16;".toList := by decide +kernel
+    Spec.charRef '€' = "&euro;".toList ∧ Spec.charRef '世' = "&#x4E16;".toList := by decide +kernel
 /-- the premises `… = pre ++ '&' :: post` / `… = pre ++ '%' :: post` occur -/
 example : xmlEscape ['a', '<', '&'] = "a&lt;".toList ++ '&' :: "amp;".toList := by decide
 example : urlEscape ['é', ' ', '/'] = "".toList ++ '%' :: "C3%A9+%2F".toList := by decide
